@@ -16,6 +16,9 @@ CLAIMED = {
     "C09": ("3.9", "Lean 4 theorems: vertex enumeration decides the forall-forall domination of boxes (any cone, scalar/vector slack, boundary included); ellipsoid closed form via support function + exact rational sqrt-inequality procedure; correspondence with confidence_region_is_dominated (equality on dyadic data, borderline band otherwise)",
             "Proof: `Rect.isDominated` (the code's double vertex loop) is proved equivalent, for l <= u and every cone matrix, to the statement over all real points of both boxes; the ellipsoid decision (per-facet closed form decided exactly over Rat by squaring) is proved equivalent to the forall-forall statement for PSD-factor and positive-definite forms; the slack-size guards are modelled. Real code is compared for equality (touching cases generated deliberately) on exact inputs and outside a certified +-1e-6*scale band otherwise.",
             "cvxpy/CLARABEL solutions of the per-facet SOCPs are compared, not verified; IEEE rounding exact only on the dyadic/integer streams."),
+    "C10": ("3.10", "Lean 4 soundness theorems for witness / Farkas / KKT / separating-multiplier checkers against the semantic Coverable predicate, box and ball reductions, monotonicity (justifies the band); untrusted exact search (Fourier–Motzkin, active sets) + verified checker; correspondence with confidence_region_is_covered on robust configurations",
+            "Proof: every 1/0 verdict of the model rests on a checked certificate whose soundness against `∃ z∈R1, ∃ z'∈R2, z' ≽ z ⊕ slack` is a Lean theorem (rectangles: the code's LP rows; balls: exact KKT projection; general ellipsoids: witness pair / separating multiplier by Cauchy–Schwarz), and the band verdicts bracket the exact one. The real predicate is compared only where both ±τ verdicts agree (τ = 1e-6·scale for the LP, 1e-3·scale for the conic/SCS-fallback decisions); wrong answers inside the solver tolerance are counted, not raised.",
+            "FM completeness not claimed (inconclusive is counted, never a violation; 0 observed); cvxpy/CLARABEL/SCS compared, not verified; the solver-tolerance widths are a judgement recorded in DESIGN §6."),
     "C11": ("3.11", "Lean 4 theorems: check_dominates sound for every cone/dimension, complete for every 2-D cone (iff), 3-D counterexample, pessimistic-set exactness; exact model + bit-exact binary64 mirror; certified exact reference (witness/Farkas); correspondence with check_dominates and compute_pessimistic_set",
             "Proof: the literal model of check_dominates → is_pt_in_extended_polytope → line_seg_pt_intersect_at_dim answers true only if every real point of R1 dominates some real point of R2 (all cones, all dimensions) and, for all 2-D cones (in particular invertible 2x2), whenever that holds; hence the pessimistic set is exactly the active designs no other active design pessimistically dominates. The real code must equal the binary64 mirror on every float input, must be sound w.r.t. a certified exact reference at any margin, and complete for 2x2 cones at margin 1e-6 (found the rounding defect fixed by 2e45ea6).",
             "Fourier–Motzkin search untrusted (verdicts certified); r64 mirror assumes IEEE round-to-nearest-even for + - * /."),
@@ -28,6 +31,9 @@ CLAIMED = {
     "C14": ("3.14", "Lean 4 theorems: Rect/Ellipsoid update formulas, listed designs updated from their own row of the prediction, others untouched, lower<=upper invariant over all update sequences, intersection rule as sets; correspondence with both design-space classes x stub/empirical/GP models, every op sequence replayed in the model",
             "Proof: after update each listed design's rectangle is mean ∓ s·std (std² = cov_jj) / its ellipsoid is (mean, cov, s), unlisted designs are untouched (also under exceptions), lower <= upper is invariant for all sequences with scale >= 0, and iterative intersection yields the set intersection when interiors meet and the new rectangle otherwise (touching = disjoint, as the code). Real updates are compared against row i of predict on the FULL design matrix, exactly on the dyadic lattice and at 1e-12/1e-9 otherwise, with the single-design subset as an explicit shape (found D3, fixed by 741d2c1).",
             "sqrt enters as an input std checked against cov at 1e-12; GP wrappers' numerics compared not verified."),
+    "C15": ("3.15", "Lean 4 theorems: wrapper state machine (predict reads what was held at the last update; helpers up to date iff they end with update), Matrix algebra (permutation invariance, block independence, Schur-complement variance >= 0 and antitone, prior for empty data), refinement of the executable exact posterior to the closed form; correspondence of the three GP wrappers and both helpers against the exact posterior computed in Lean from the exported Gram matrices",
+            "Proof: predictions of every add/update/clear history are the posterior of exactly the multiset held at the last update (all three classes, end to end), independent of order/batching; model-list observations are local to their objective; posterior variances are non-negative and never grow with data; the executable rational posterior (checked Bareiss solve) equals kᵀA⁻¹y / k** − kᵀA⁻¹k. Real predict() shapes and values are compared with that exact posterior at 1e-6 (conditioning guarded by the exact minimum pivot); found D3/D3b/D3c (fixed) and the matrix-noise prior crash (known finding).",
+            "gpytorch/torch linear algebra compared, not verified; kernel values are taken from the model's own kernel modules (exp not re-derived); Bareiss solver untrusted (result re-checked)."),
     "C16": ("3.16", "Lean 4 theorems about the empirical model's op-sequence state machine (mean/population variance of all samples since the last clear as of the last update; List.Perm / re-batching invariance; rejection leaves state unchanged) + whole-history replay correspondence with EmpiricalMeanVarModel",
             "Proof: for every add/update/clear history the model's prediction is the arithmetic mean and (>= 2 samples) population variance, else noise·I, of exactly the samples added for that design; invariant under any permutation/re-batching/interleaving; zero mean for unsampled designs; zeros/identity when untracked; out-of-range or mismatched adds are rejected without effect. Real histories (lists, sets, arrays, repeated indices, toggled flags) are replayed in the model with dyadic values (sums exact) and compared.",
             "np.mean/np.var compared at 1e-12 when the count is not a power of two; quirks outside the property (negative indices, empty adds) are modelled and counted only."),
